@@ -109,6 +109,32 @@ CHECKS = {
              "without graph export: results and sync_paths signatures must be equal, the export must succeed, and the parsed "
              "dot file must have exactly the spec's nodes, solid and dashed edges, any other edge being an allowed dotted one.",
         design_ref="DESIGN.md 5 C18"),
+    "C05": dict(
+        engine="tlc-generate+tlc-trace",
+        technique="TLA+ spec DdsValues: value universe as terms, canonical identity Canon (documented identifications only) and "
+                  "Supported, enumerated by TLC; every value built and hashed by the real dds_hash (and dds.keep), partition by "
+                  "signature compared with the partition by Canon; recorded observations on random deep values judged by TLC "
+                  "(ValuesTrace recomputes Canon and keeps the table signature -> class)",
+        text="TLC enumerates the universe (47 named atoms incl. boundary ints, signed zeros, nan/inf, separator-like and sentinel "
+             "strings, dates, paths; all containers of length <= 2 over 12 core atoms incl. named tuples, dicts, two dataclasses; "
+             "depth 2 in thorough) with each value's Canon class. The harness hashes every value: any exception other than a "
+             "coded DDS error on an unsupported value, any two values of different classes with one signature, or a different "
+             "signature in a second process with another hash seed is a violation; random deeper values are recorded and TLC "
+             "checks the same partition property on the trace.",
+        design_ref="DESIGN.md 5 C05, 4.4", category="model_checking",
+        note="This is the function-shaped corner of the technique: TLC defines and enumerates the universe and the expected "
+             "partition and judges recorded observations; there is no interleaving to explore. sha256 collision resistance assumed."),
+    "C13": dict(
+        engine="tlc-generate",
+        technique="TLA+ spec DdsValues: ParamLists, Spellings, Bind enumerated by TLC; every spelling executed directly and as "
+                  "literals inside an evaluated function, signatures captured via Store.sync_paths and compared with the "
+                  "partition by binding",
+        text="TLC enumerates every parameter list with up to 2 (thorough: 3) parameters and defaults from {None,0,False,'',1,'a'}, "
+             "every spelling (positional prefix, keywords, defaults omitted or explicit) over {None,0,1,True,'','a'} and its "
+             "binding. Each is run as dds.keep(path,g,...) directly and as a literal call inside dds.eval(h), keywords in both "
+             "orders, on a fresh recording store: one binding with two signatures, or two bindings with one, is a violation.",
+        design_ref="DESIGN.md 5 C13", category="model_checking",
+        note="Function-shaped: TLC supplies the universe and the expected partition. bool = int is a documented identification."),
     "C08": dict(
         engine="tlc-design+tlc-generate+tlc-trace",
         technique="TLA+ spec StoreModel (dictionary store with path identity = segment sequence) model-checked by TLC over its "
